@@ -186,6 +186,19 @@ CHECKS: Dict[str, Dict[str, str]] = {
         "(unbounded integers). Trusted: itertools, math.lcm, set arithmetic.",
         design="3/C01",
     ),
+    "C09": dict(
+        technique="static analysis: extraction of the reference filter predicate and of the resolution outcome table (path conditions "
+        "over match count / letter case), dataflow of the lookup list through read() and the builder, single-store lint on the cache",
+        text="Decides: the filter is (case-insensitive full name) and (exact version) over the lookup list; the outcome over "
+        "{0, 1, >=2 matches} x exact-case is undefined-type / name-collision / collision / read-that-definition, each error an "
+        "InvalidDefinitionError; relative names are completed with the referrer's namespace; read() removes itself by "
+        "name+version equality from the lookup list and hands exactly that list to the builder, which forwards it, so the "
+        "list strictly shrinks along any reference chain (cycles end in UndefinedDataTypeError, a ranking-function argument); "
+        "the composite is cached once after finalize(), outside handlers, hits return it, one object per file. Equality of "
+        "nested vs stand-alone types across orders is a value property and is not decided.",
+        note="Trusted: finite lookup list; DSDLDefinition equality is by (full name, version).",
+        design="3/C09",
+    ),
 }
 
 NOT_APPLICABLE: Dict[str, str] = {}
